@@ -562,18 +562,22 @@ Print Assumptions C14_apply_cons.
    what is claimed above cannot be mistaken for the whole of C14; each is exercised by
    the correspondence check and the reference-store oracle only. *)
 
-(* OPEN (hand model of prelude.scm:147-258, Model/PreludeLists.v; to be re-stated over the
-   generated prelude run by the VM model): the Scheme-defined list procedures.  Only
-   `list` has a theorem (C14_handmodel_list below); length (statement below), memq memv
-   member assq assv assoc map for-each caar cadr cdar cddr have NO theorem: they are
-   covered by the correspondence check and the reference-store oracle only. *)
-Definition prelude_length_stmt : Prop :=
-  forall fuel s v xs e,
-  values_are_refs s -> val_ok s v -> achain (abs s) (absv s v) xs e ->
-  (length xs + 1 < fuel)%nat ->
-  (e = AImm VNil -> exists s', MW.Model.PreludeLists.p_length fuel [v] s =
-                               ROk (VNum (Fixnum (Z.of_nat (length xs)))) s' /\ pres s s') /\
-  (e <> AImm VNil -> render_fail (MW.Model.PreludeLists.p_length fuel [v] s)).
+(* OPEN — NO THEOREM YET for the remaining procedures of the hand model
+   Model/PreludeLists.v (prelude.scm:159-258): memq memv member assq assv assoc map
+   for-each caar cdar cddr.  They are covered by the correspondence check (interface 40) and
+   by the reference-store oracle only.  The statement for memq/memv/member, as an example of
+   what is owed (to be proved over the generated prelude run by the VM model): *)
+Definition prelude_member_stmt : Prop :=
+  forall fuel s x l xs e,
+  values_are_refs s -> sym_interned s -> val_ok s x -> val_ok s l -> sp s < len (stack s) ->
+  achain (abs s) (absv s l) xs e -> (forall n, In n xs -> exists k, adatum s n k /\ (2 * k + 2 < fuel)%nat) ->
+  (exists k, adatum s (absv s x) k /\ (2 * k + 2 < fuel)%nat) -> (length xs + 1 < fuel)%nat ->
+  e = AImm VNil ->
+  exists r s', MW.Model.PreludeLists.p_mem fuel (equal_b fuel) [x; l] s = ROk r s' /\ hp s' = hp s /\
+    ((forall n, In n xs -> ~ aequal s n (absv s x)) /\ absv s r = AImm (VBool false) \/
+     exists i, atail (abs s) (absv s l) i (absv s r) /\
+       (exists n, nth_error xs i = Some n /\ aequal s n (absv s x)) /\
+       (forall j n, (j < i)%nat -> nth_error xs j = Some n -> ~ aequal s n (absv s x))).
 
 (* ==========================================================================
    HAND MODEL SECTION.  The theorem below is about Model/PreludeLists.v, the hand
@@ -587,6 +591,23 @@ Theorem C14_handmodel_list : forall s args,
     pres s s' /\ values_are_refs s'.
 Proof. exact prelude_list_spec. Qed.
 Print Assumptions C14_handmodel_list.
+
+Theorem C14_handmodel_length : forall fuel s v xs e,
+  values_are_refs s -> val_ok s v -> sp s < len (stack s) ->
+  achain (abs s) (absv s v) xs e -> (length xs + 1 <= fuel)%nat ->
+  (e = AImm VNil ->
+     exists s', MW.Model.PreludeLists.p_length fuel [v] s = ROk (VNum (Fixnum (Z.of_nat (length xs)))) s' /\
+                hp s' = hp s /\ st s' = st s) /\
+  (e <> AImm VNil -> render_fail (MW.Model.PreludeLists.p_length fuel [v] s)).
+Proof. exact prelude_length_spec. Qed.
+Print Assumptions C14_handmodel_length.
+
+Theorem C14_handmodel_cadr : forall fuel s o a d a2 d2,
+  sp s < len (stack s) ->
+  heap_deref (hp s) o = Ok (VPair a d) -> heap_get (hp s) d = Ok (VPair a2 d2) ->
+  exists s', MW.Model.PreludeLists.p_cadr fuel [o] s = ROk (VPtr a2) s' /\ hp s' = hp s /\ st s' = st s.
+Proof. exact prelude_cadr_spec. Qed.
+Print Assumptions C14_handmodel_cadr.
 
 (* ----------------------------------------------------------------- non-vacuity *)
 (* the hypotheses are satisfiable: the empty machine satisfies the invariant, and the
